@@ -16,6 +16,7 @@ Oracle: the pinned sets below, nothing from the library.
 from __future__ import annotations
 
 import inspect
+import re
 from typing import Any, Dict, List
 
 from .. import core, explorer, sched
@@ -119,6 +120,9 @@ def _judge_raise(o: Dict[str, Any], code: int, shape, via: str, viol: List[dict]
         bad("classification-wrong", f"code {code} raised {info['cls']}, documented sets say {exp}", got=got)
     if not (info["code_type"] == "int" and info["code"] == code):
         bad("code-not-carried", f"exception .code = {info['code']!r} ({info['code_type']}), server sent {code}")
+    stated = [int(x) for x in re.findall(r"code:\s*(-?\d+)", info["str"])]
+    if any(x != code for x in stated):
+        bad("text-states-another-code", f"str(e) = {info['str']!r} names code {stated}, server sent {code}")
     m = MESSAGES[shape[0]][1]
     if m is not None and m not in info["str"]:
         bad("message-not-carried", f"str(e) = {info['str']!r} lacks the server's message {m!r}")
@@ -419,6 +423,12 @@ def run(tier: str, only=None) -> core.Result:
         for rich, arm in (profiles if tier == "quick" else profiles[:2]):
             for block in _chunks(hcodes, 4 if tier == "quick" else 8):
                 cfgs.append({"part": "helper", "helper": h["name"], "rich": rich, "arm": arm, "codes": block})
+    if tier == "quick":
+        # the three boolean convenience calls get every code of the grid in both tiers
+        for h in req_helpers:
+            if hd.short(h["name"]) in BOOL_HELPERS:
+                for block in _chunks(codes, 8):
+                    cfgs.append({"part": "helper", "helper": h["name"], "rich": False, "arm": 0, "codes": block})
     out = explorer.explore(RUN, cfgs)
     sched.absorb(res, "iii-helpers-error-answer", RUN, out, cfgs)
     samples += _pick("iii-helpers-error-answer", cfgs, note=f"each code x {len(SHAPES)} shapes")
@@ -437,6 +447,7 @@ def run(tier: str, only=None) -> core.Result:
     cov["unrepresentable_error_shapes_skipped"] = cnt.get("sm_unrepresentable", 0) + cnt.get("helper_unrepresentable", 0)
     cov["codes_in_grid"] = len(codes)
     cov["codes_per_helper"] = len(hcodes)
+    cov["codes_per_boolean_helper"] = len(codes)
     cov["error_shapes"] = [shape_name(s) for s in SHAPES]
     cov["request_helpers_driven"] = [hd.short(h["name"]) for h in req_helpers]
     cov["notification_only_helpers_listed_not_driven"] = [h["name"] for h in notif_helpers]
@@ -450,7 +461,8 @@ def run(tier: str, only=None) -> core.Result:
         "{parse_message, JSONRPCMessage(...)}; (iii) every discovered request helper x argument profiles "
         "{required only, all optionals, second Union arm} x "
         + ("boundary codes (named codes +-1, range edges, 0, +-1, +-200, 64-bit extremes)" if tier == "quick" else "every code of the grid")
-        + " x shape.  distinct_nontrivial = distinct observation digests of the blocks (a block = one code, or one helper x profile x <=8 codes); "
+        + " x shape; ping / resources_subscribe / resources_unsubscribe x every code of the grid in both tiers"
+        + ".  str(e) may not name a code other than the one sent.  distinct_nontrivial = distinct observation digests of the blocks (a block = one code, or one helper x profile x <=8 codes); "
         "shapes the chosen route rejects are counted as unrepresentable and skipped"
     )
     res.assumptions = [
